@@ -56,6 +56,21 @@ StunChangePort(p) ==
     LET a == StunWalk(p, 20, Len(p), << >>).a IN
     \E i \in 1..Len(a) : a[i][1] = ATTR_CHANGE /\ (p[a[i][3] + 4] \div 2) % 2 = 1
 
+(* The source-port shifts the statements allow for the answer to p: decided by the         *)
+(* attributes inside the declared message length - bytes after it are not part of the     *)
+(* message.  Where the attribute list is ambiguous (overrun, lengths that are not         *)
+(* multiples of four, several or odd-sized CHANGE-REQUESTs) both are accepted.            *)
+StunShift(p) ==
+    IF Len(p) < 20 \/ Len(p) < 20 + StunLen(p) THEN { 0, 1 }
+    ELSE LET w == StunWalk(p, 20, 20 + StunLen(p), << >>)
+             a == w.a
+             ch == { i \in 1..Len(a) : a[i][1] = ATTR_CHANGE }
+         IN IF ~w.ok \/ \E i \in 1..Len(a) : a[i][2] % 4 # 0 THEN { 0, 1 }
+            ELSE IF ch = {} THEN { 0 }
+            ELSE IF Cardinality(ch) = 1 /\ \A i \in ch : a[i][2] = 4
+                 THEN (IF \E i \in ch : (p[a[i][3] + 4] \div 2) % 2 = 1 THEN { 1 } ELSE { 0 })
+                 ELSE { 0, 1 }
+
 (* messages that are not binding requests: other classes, other methods *)
 StunOtherClassOrMethod(p) ==
     Len(p) >= 20 /\ StunTopBitsZero(p) /\ (StunClass(p) # 0 \/ StunMethod(p) # 1)
